@@ -32,7 +32,7 @@ META = {
                   "by (exception class, raising function) otherwise; none is assumed absent). The per-line tokenizer and the LR driver "
                   "are arguments of the model (they are modelled in Lex/ and LR/). corpus/C16 holds one shrunk input per class seen so "
                   "far and is replayed first, so the listed classes are re-derived on every run for every seed; the quick tier adds "
-                  "2000 fresh inputs per run, the thorough tier 30000 (the tail of rare crash classes is long: about one new class per "
+                  "800 fresh inputs per run, the thorough tier 30000 (the tail of rare crash classes is long: about one new class per "
                   "20000 inputs in development). Generated field widths above 65536 are cut down: the front end computes 2**width for "
                   "them (minutes and gigabytes from about 2**30 on; recorded once as finding "
                   "crash:ValueError:integer-width-beyond-digit-limit and not re-run).",
@@ -324,6 +324,9 @@ def classify_crash(c):
         return "crash:TypeError:message-source-file-not-a-string"
     if exc == "UnicodeDecodeError":
         return "crash:UnicodeDecodeError:source-file-not-utf8"
+    if exc == "RecursionError":
+        # the frame in which the interpreter's limit is hit is arbitrary
+        return "crash:RecursionError:recursion-limit"
     if exc == "ValueError" and "Exceeds the limit" in msg and "integer string conversion" in msg:
         return "crash:ValueError:integer-width-beyond-digit-limit"
     return pw.crash_key(c)
@@ -453,20 +456,21 @@ def shrink(text, extra, key, budget=350):
 _TB = re.compile(r'File "([^"]+)", line (\d+), in (\S+)')
 
 
-def cli_crash_key(stderr):
-    """(exception class, innermost /repo function) from a printed traceback."""
+def cli_crash_info(stderr):
+    """{"exc", "func", "file", "line", "msg"} of the innermost /repo frame of a printed traceback."""
     import ast
     root = os.path.realpath(fw.REPO) + os.sep
     frames = [(os.path.realpath(f), int(l), fn) for f, l, fn in _TB.findall(stderr)]
     inner = [fr for fr in frames if fr[0].startswith(root)]
-    exc = "?"
+    exc, msg = "?", ""
     for line in reversed(stderr.strip().splitlines()):
         m = re.match(r"([A-Za-z_][\w.]*)(:|$)", line.strip())
         if m and not line.startswith(" "):
             exc = m.group(1).split(".")[-1]
+            msg = line.strip()[len(m.group(1)) + 1:].strip()
             break
     if not inner:
-        return "crash:%s:?" % exc
+        return {"exc": exc, "func": "?", "file": "", "line": 0, "msg": msg}
     f, ln, fn = inner[-1]
     qual = fn
     try:
@@ -483,14 +487,16 @@ def cli_crash_key(stderr):
         qual = find(tree, "") or fn
     except Exception:
         pass
-    return "crash:%s:%s" % (exc, qual)
+    return {"exc": exc, "func": qual, "file": os.path.relpath(f, root), "line": ln, "msg": msg}
+
+
+def cli_crash_key(stderr):
+    c = cli_crash_info(stderr)
+    return "crash:%s:%s" % (c["exc"], c["func"])
 
 
 def cli_key(err):
-    key = cli_crash_key(err)
-    parts = key.split(":", 2)
-    return classify_crash({"exc": parts[1], "func": parts[2] if len(parts) > 2 else "?", "file": "",
-                           "msg": err.strip().splitlines()[-1] if err.strip() else ""})
+    return classify_crash(cli_crash_info(err))
 
 
 def run_cli(ctx, d, data, name="m.emb", extra_args=()):
@@ -545,7 +551,7 @@ def build_inputs(ctx, n_fuzz):
     return inputs
 
 
-N_MODEL_QUICK, N_FUZZ_QUICK = 120, 2000
+N_MODEL_QUICK, N_FUZZ_QUICK = 120, 800
 
 
 def run(ctx):
